@@ -266,6 +266,34 @@ func checkC04(c *Ctx) {
 		}
 	}
 
+	// the decoded strings survive Clone into a destination that held other documents before
+	// (big, then small, then medium: the destination's string buffer shrinks and grows again)
+	{
+		var dst *simdjson.ParsedJson
+		docs := escapeOffsetDocs(r, false)
+		for i := 0; i+2 < len(docs) && i < 600; i += 3 {
+			big := []byte(`["` + strings.Repeat("B", 300+r.Intn(300)) + `\n",` + string(docs[i][1:]))
+			small := []byte(`["s\t"]`)
+			for _, d := range [][]byte{big, small, docs[i+1]} {
+				src := implParse(d, false, true, nil)
+				if src.Err {
+					continue
+				}
+				cl := src.PJ.Clone(dst)
+				dst = cl
+				a, e1 := dumpDoc(src.PJ)
+				b, e2 := dumpDoc(cl)
+				c.Ev.Count("clone-into-reused-destination", d, true)
+				if e1 != nil || e2 != nil || a != b {
+					c.Violate("document", "strings of a clone made into a destination used before differ from the original's", "clone-reused-dst",
+						map[string]interface{}{"doc_hex": fmt.Sprintf("%x", trunc(string(d), 2000)), "doc_text": printable(d), "clone": trunc(b, 300), "original": trunc(a, 300)})
+					i = len(docs)
+					break
+				}
+			}
+		}
+	}
+
 	// kernel-level correspondence: parseString with an explicit maxStringSize
 	c.strKernelCorrespondence()
 }
